@@ -88,6 +88,7 @@ structure State where
   pending : Nat → Bool         -- is_pending_verify
   seen : Nat → Bool            -- ghost
   expiryFired : Bool           -- ghost
+  commits : Nat                -- ghost: number of RocksDB commits performed so far (C08 crash points)
 
 def init (T : Tree) : State :=
   { stored := fun b => b == 0
@@ -100,7 +101,8 @@ def init (T : Tree) : State :=
     queue := []
     pending := fun _ => false
     seen := fun _ => false
-    expiryFired := false }
+    expiryFired := false
+    commits := 0 }
 
 /-- `parent_is_pending_verify || parent_status.contains(BLOCK_STORED)` -/
 def acceptable (s : State) (p : Nat) : Bool :=
@@ -112,7 +114,8 @@ def enqueue (s : State) (c : Nat) : State :=
 
 /-- `process_invalid_block`: delete the block (one commit), mark BLOCK_INVALID, callback Err -/
 def rejectBlk (s : State) (c : Nat) : State :=
-  { s with stored := upd s.stored c false, invalid := upd s.invalid c true }
+  { s with stored := upd s.stored c false, invalid := upd s.invalid c true,
+           commits := if s.stored c then s.commits + 1 else s.commits }
 
 def unpool (s : State) (c : Nat) : State := { s with pool := s.pool.filter (· != c) }
 
@@ -156,24 +159,28 @@ def deliver (T : Tree) (hint : List Nat) (s : State) (b : Nat) : State × Out :=
     let s := { s with seen := upd s.seen b true }
     if !T.nc b then ({ s with invalid := upd s.invalid b true }, [(b, Verdict.err)])
     else
-      let s1 := { s with stored := upd s.stored b true }     -- insert_block commit
+      let s1 := { s with stored := upd s.stored b true, commits := s.commits + 1 }  -- insert_block commit
       let r := route T s1 b
       let r2 := search T hint r.1
       (r2.1, r.2 ++ r2.2)
 
 /-- `find_fork`'s `dirty_exts` below the submitted block: the run of stored-but-unverified
-ancestors, oldest first. (Where the code would `expect` a missing ext the walk stops.) -/
-def dirtyRun (T : Tree) (s : State) (b : Nat) : List Nat :=
-  if h : b = 0 then []
-  else if s.ver b then []
-  else if (s.td b).isNone then []
-  else dirtyRun T s (T.par b) ++ [b]
-termination_by b
-decreasing_by exact T.par_lt h
+ancestors, oldest first. (Where the code would `expect` a missing ext the walk stops.) Structural
+recursion on a fuel argument (`b` itself suffices because `par b < b`). -/
+def dirtyRunAux (T : Tree) (s : State) : Nat → Nat → List Nat
+  | 0, _ => []
+  | fuel + 1, b =>
+    if b = 0 then []
+    else if s.ver b then []
+    else if (s.td b).isNone then []
+    else dirtyRunAux T s fuel (T.par b) ++ [b]
+
+def dirtyRun (T : Tree) (s : State) (b : Nat) : List Nat := dirtyRunAux T s b b
 
 def verifyFail (s0 : State) (b : Nat) : State × Out :=
   ({ s0 with stored := upd s0.stored b false, invalid := upd s0.invalid b true,
-             pending := upd s0.pending b false }, [(b, Verdict.err)])
+             pending := upd s0.pending b false,
+             commits := if s0.stored b then s0.commits + 1 else s0.commits }, [(b, Verdict.err)])
 
 def verifyDone (s' : State) (b : Nat) (v : Verdict) : State × Out :=
   ({ s' with invalid := upd s'.invalid b false, pending := upd s'.pending b false }, [(b, v)])
@@ -197,9 +204,9 @@ def verifyHead (T : Tree) (s : State) : State × Out :=
             if dirty.all T.ok then
               verifyDone { s0 with td := upd s0.td b (some td),
                                    ver := fun x => decide (x ∈ dirty) || s0.ver x,
-                                   tip := b, tipTd := td } b Verdict.okNew
+                                   tip := b, tipTd := td, commits := s0.commits + 1 } b Verdict.okNew
             else verifyFail s0 b
-          else verifyDone { s0 with td := upd s0.td b (some td) } b Verdict.okNew
+          else verifyDone { s0 with td := upd s0.td b (some td), commits := s0.commits + 1 } b Verdict.okNew
 
 /-- is pooled candidate `c` removed by this expiry run? A leader's child by the epoch test
 (`need_clean` looks at one child of the leader; all children of one parent have the same epoch),
@@ -214,7 +221,8 @@ def stepExpire (T : Tree) (pool0 : List Nat) (tipEpoch : Nat) (acc : State × Li
   if c ∈ s.pool then
     if expGone T pool0 tipEpoch acc.2 c then
       ({ unpool s c with stored := upd s.stored c false, invalid := upd s.invalid c false,
-                         expiryFired := true }, acc.2 ++ [c])
+                         expiryFired := true,
+                         commits := if s.stored c then s.commits + 1 else s.commits }, acc.2 ++ [c])
     else acc
   else acc
 
@@ -232,6 +240,7 @@ inductive Op
   | verify
   | expire
   | crash
+  deriving DecidableEq
 
 def step (T : Tree) (s : State) : Op → State × Out
   | .deliver b hint => deliver T hint s b
